@@ -423,6 +423,34 @@ class SymDomain(BaseDomain):
         kind = max(kinds, key=lambda k: order.get(k, 1)) if kinds else "real"
         return DType(kind, srcs.pop() if len(srcs) == 1 else None)
 
+    def note_global_store(self, interp, mod, name, value, node):
+        """a function of the analysed call tree rebinds a module global to call-dependent data (arrays, symbolic values): results
+        of later calls can then depend on earlier ones (memo keyed by object identity, carried-over iterate ...).  Lazily
+        initialised constants (concrete numbers / strings) are not judged."""
+        def symbolic(v, depth=0):
+            if isinstance(v, (SymArr, Instance)):
+                return True
+            if isinstance(v, (Poly, SC, SQ, NQ)):
+                try:
+                    return not all(c.is_const() for c in (v.c if hasattr(v, "c") else ((v.re, v.im) if isinstance(v, SC) else (v,))))
+                except Exception:
+                    return True
+            if isinstance(v, (list, tuple, set)) and depth < 4:
+                return any(symbolic(x, depth + 1) for x in v)
+            if isinstance(v, dict) and depth < 4:
+                return any(symbolic(x, depth + 1) for x in v.values())
+            return False
+        ctx = getattr(self, "ctx", None)
+        if ctx is None or not symbolic(value):
+            return
+        fi = interp.call_stack[-1] if interp.call_stack else None
+        fn = fi
+        where = interp.where(node)
+        ctx.ob(f"{ctx.prop}.E3.global-state", f"store to module global {mod.name}.{name} at {where}", False,
+               f"call-dependent data is kept in the module global {name!r}: the result of a later call can depend on earlier calls "
+               f"(stale memo after an in-place edit of the argument, carried-over state)", where=getattr(fn, "where", where),
+               construct=f"module global {name} rebound to call data", loc=where)
+
     def note_store(self, base, value, interp, node):
         """dtype provenance: a buffer whose dtype was taken from ONE input array (np.zeros(..., dtype=X.dtype), zeros_like(X),
         X.astype(Y.dtype)) receives values that do not have that same dtype -> numpy casts them to the buffer's dtype
@@ -445,7 +473,7 @@ class SymDomain(BaseDomain):
         ctx = getattr(self, "ctx", None)
         if ctx is not None:
             fi = interp.call_stack[-1] if interp is not None and interp.call_stack else None
-            fn = getattr(fi, "func", None)
+            fn = fi
             ctx.ob(f"{ctx.prop}.E3.dtype-source", f"store at {where}", False,
                    f"values of {'the promoted default dtype' if vt is None else 'the dtype of input ' + repr(vt[1] if isinstance(vt, tuple) else vt)} are stored into a buffer "
                    f"whose dtype was taken from input {bt[1]!r} alone: numpy casts them (fractional values are truncated when that input "
